@@ -25,6 +25,20 @@ def obligations(ctx):
         for api in (1, 2):
             for (rsz, asz) in ((0, 2), (1, 3), (3, 1), (2, 2)):
                 obs.append(ag.api_ob(t, api, nn, 1, 1, rsz, asz, asl=nn + 1 if api == 1 else nn))
+    # the same entry points with every buffer carved back to back out of one arena (in order of use / in reverse order): a source that merely touches
+    # the output range must stay untouched, and an overrun of the output lands in the neighbouring source
+    for arena in (1, 2):
+        for avx in (0, 1):
+            for (api, rsz, asz) in ((1, 2, 3), (1, 3, 2), (2, 2, 3), (2, 3, 2), (2, 2, 2), (5, 2, 3), (5, 3, 1)):
+                obs.append(ag.api_ob(t, api, 8, 0, avx, rsz, asz, arena=arena))
+            obs.append(ag.api_ob(t, 4, 8, 0, avx, arena=arena))
+            obs.append(ag.api_ob(t, 6, 8, 0, avx, arena=arena))
+            for (nrows, ncols, rsz, asz) in ((2, 3, 3, 1), (3, 2, 1, 3)):
+                obs.append(ag.api_ob(t, 7, 8, 0, avx, nrows=nrows, ncols=ncols, arena=arena))
+                obs.append(ag.api_ob(t, 8, 8, 0, avx, rsz, asz, nrows=nrows, ncols=ncols, arena=arena))
+                obs.append(ag.api_ob(t, 9, 8, 0, avx, rsz, asz, nrows=nrows, ncols=ncols, arena=arena))
+        for (api, rsz, asz) in ((1, 2, 2), (2, 2, 3), (2, 3, 2)):
+            obs.append(ag.api_ob(t, api, 4, 1, 1, rsz, asz, arena=arena))
     # coefficient-space entry points: both sources compared word by word including stride padding, with and without aliasing of the OTHER operand
     idx = 0
     for (op, var) in vg.PAIRS:
